@@ -763,92 +763,24 @@ func caseUsesCtor(c *core.Ctx, fn *ssa.Function, code int64, ctors []*types.Func
 // ---- containers -----------------------------------------------------------------
 
 func checkContainers(c *core.Ctx, l *core.Ledger, m *wireModel) {
-	exp := []struct{ recv, name, want string }{
-		{"Writer", "writeField", "[u8:val be16:ID call:WriteValue($1.Value)]"},
-		{"Writer", "writeStruct", "[loop:call:writeField($1.Fields[i]) u8=0] | [u8=0]"},
-		{"Writer", "realWriteMapItem", "[call:WriteValue($1.Key) call:WriteValue($1.Value)]"},
-		{"Writer", "writeMap", "[u8:val u8:val be32:val foreach:$1($0.writeMapItem)]"},
-		{"Writer", "writeSet", "[u8:val be32:val foreach:$1($0.writeValue)]"},
-		{"Writer", "writeList", "[u8:val be32:val foreach:$1($0.writeValue)]"},
-	}
-	for _, e := range exp {
-		f := m.method(e.recv, e.name)
-		if f == nil {
-			l.Unk("CONTAINER-W", e.recv+"."+e.name, "", "function not found (renamed?): container framing cannot be located")
-			continue
+	if os.Getenv("VDEBUG") != "" {
+		for _, code := range []int64{2, 3, 4, 6, 8, 10, 11, 12, 13, 14, 15} {
+			fmt.Fprintln(os.Stderr, "WSIG", code, m.writeSignature(code))
 		}
-		got := shapeSeqs(m.WSeqs(f))
-		l.Add(core.Obligation{Rule: "CONTAINER-W", Key: e.recv + "." + e.name, Pos: c.Rel(f.Pos()), Status: st(got == dedupShapes(e.want)),
-			Detail: "framing sequence " + got + "; expected " + dedupShapes(e.want) + "; events " + normSeqs(m.WSeqs(f))})
 	}
-	// header payloads: type byte from ValueType()/KeyType(), count from Size(), field type from Value.Type()
-	hdr := []struct {
-		name     string
-		contains []string
-	}{
-		{"writeField", []string{"u8(v.Type($1.Value))", "be16($1.ID)"}},
-		{"writeMap", []string{"u8(ml.KeyType()) u8(ml.ValueType()) be32(ml.Size())"}},
-		{"writeSet", []string{"u8(vl.ValueType()) be32(vl.Size())"}},
-		{"writeList", []string{"u8(vl.ValueType()) be32(vl.Size())"}},
+	// WRITE-SIG: what Writer.WriteValue puts on the wire per container wire type, helpers explored in
+	// place and ForEach callbacks resolved through the stores that bind them (names do not occur)
+	want := map[int64]string{
+		11: "be32(len((*wire.Value).GetBinary($1))) bytes((*wire.Value).GetBinary($1))",
+		12: "loop:u8((*wire.Value).Type((*wire.Value).GetStruct($1).Fields[i].Value)) loop:be16((*wire.Value).GetStruct($1).Fields[i].ID) loop:call:WriteValue((*wire.Value).GetStruct($1).Fields[i].Value) u8(c:0) | u8(c:0)",
+		13: "u8((wire.MapItemList).KeyType((*wire.Value).GetMap($1))) u8((wire.MapItemList).ValueType((*wire.Value).GetMap($1))) be32((wire.MapItemList).Size((*wire.Value).GetMap($1))) foreach:(*wire.Value).GetMap($1){call:WriteValue($1.Key) call:WriteValue($1.Value)}",
+		14: "u8((wire.ValueList).ValueType((*wire.Value).GetSet($1))) be32((wire.ValueList).Size((*wire.Value).GetSet($1))) foreach:(*wire.Value).GetSet($1){call:WriteValue($1)}",
+		15: "u8((wire.ValueList).ValueType((*wire.Value).GetList($1))) be32((wire.ValueList).Size((*wire.Value).GetList($1))) foreach:(*wire.Value).GetList($1){call:WriteValue($1)}",
 	}
-	for _, h := range hdr {
-		f := m.method("Writer", h.name)
-		if f == nil {
-			continue
-		}
-		s := normSeqs(m.WSeqs(f))
-		ok := true
-		for _, sub := range h.contains {
-			if !strings.Contains(s, sub) {
-				ok = false
-			}
-		}
-		l.Check(ok, "CONTAINER-HDR", "Writer."+h.name, c.Rel(f.Pos()), "header payload comes from the container's own type/size accessors: "+s, "header payload is not (key/value type, size) of the container being written: "+s)
-	}
-	// the function fields used as ForEach callbacks are bound to the right methods
-	bind := map[string]string{"writeValue": "WriteValue", "writeMapItem": "realWriteMapItem"}
-	boundOK := map[string]bool{}
-	for _, f := range c.AllFuncs("protocol/binary") {
-		core.Instrs(f, func(in ssa.Instruction) {
-			st, ok := in.(*ssa.Store)
-			if !ok {
-				return
-			}
-			fa, ok := st.Addr.(*ssa.FieldAddr)
-			if !ok {
-				return
-			}
-			fld := core.FieldOf(fa)
-			want, tracked := bind[fld.Name()]
-			if !tracked || core.RecvTypeName(fa.X.Type()) != "Writer" {
-				return
-			}
-			mc, ok := st.Val.(*ssa.MakeClosure)
-			good := false
-			if ok {
-				// bound method wrapper: its single call is the method
-				bf := mc.Fn.(*ssa.Function)
-				core.Instrs(bf, func(i2 ssa.Instruction) {
-					if call, ok := i2.(ssa.CallInstruction); ok && call.Common().StaticCallee() != nil && call.Common().StaticCallee().Name() == want && recvNamed(call.Common().StaticCallee()) == "Writer" {
-						good = true
-					}
-				})
-				if len(mc.Bindings) != 1 || core.Unop(mc.Bindings[0]) != core.Unop(fa.X) {
-					good = false
-				}
-			}
-			if good {
-				if _, dup := boundOK[fld.Name()]; !dup {
-					boundOK[fld.Name()] = true
-				}
-			} else {
-				boundOK[fld.Name()] = false
-			}
-		})
-	}
-	for fld, want := range bind {
-		v, found := boundOK[fld]
-		l.Check(found && v, "CONTAINER-BIND", "Writer."+fld, "", "every store to Writer."+fld+" binds the same writer's "+want, "Writer."+fld+" is not (only) bound to the same writer's "+want)
+	names := map[int64]string{11: "TBinary", 12: "TStruct", 13: "TMap", 14: "TSet", 15: "TList"}
+	for _, code := range []int64{11, 12, 13, 14, 15} {
+		got := m.writeSignature(code)
+		l.Check(got == want[code], "CONTAINER-W", "WriteValue("+names[code]+")", "", "the value-based serializer frames this wire type per the protocol: "+got, "framing of this wire type is ["+got+"]; the protocol row is ["+want[code]+"]")
 	}
 	// reader side
 	rexp := []struct{ name, want string }{
@@ -865,7 +797,10 @@ func checkContainers(c *core.Ctx, l *core.Ledger, m *wireModel) {
 		}
 		got := shapeSeqs(m.RSeqs(f))
 		got = stripCallArgs(got)
-		want := e.want
+		// whether the header read sits before the loop and at its end, or once at its top, is the same
+		// sequence of reads: the repetition is carried by the value read in between
+		got = dedupShapes(strings.ReplaceAll(got, "loop:alt{", "alt{"))
+		want := strings.ReplaceAll(e.want, "loop:alt{", "alt{")
 		l.Add(core.Obligation{Rule: "CONTAINER-R", Key: "reader." + e.name, Pos: c.Rel(f.Pos()), Status: st(got == dedupShapes(want)),
 			Detail: "framing sequence " + got + "; expected " + dedupShapes(want) + "; events " + normSeqs(m.RSeqs(f))})
 	}
@@ -890,9 +825,9 @@ func checkContainers(c *core.Ctx, l *core.Ledger, m *wireModel) {
 			"each field value is read with the wire type of its own header", "field value is not read with the header's type: "+s)
 	}
 	checkLazyHeader(c, l, m)
-	l.Floor("CONTAINER-W", 6)
+	l.Floor("CONTAINER-W", 5)
 	l.Floor("CONTAINER-R", 4)
-	l.Floor("CONTAINER-HDR", 8)
+	l.Floor("CONTAINER-HDR", 4)
 }
 
 var reCallArgs = regexp.MustCompile(`call:(\w+)\(`)
